@@ -42,13 +42,28 @@ func (h topkRedis) Values() ([]heapDoc, error) {
 }
 func (h topkRedis) Export() ([]byte, error) { return h.t.Export() }
 
+// topkMulti: operations of a Redis Top-K go through the creating handle or re-attached ones
+type topkMulti struct{ hs []topkRedis }
+
+func (m *topkMulti) pick() topkRedis {
+	if len(m.hs) < 3 && multiRng.Intn(6) == 0 {
+		if t := gostatix.NewTopKRedisFromKey(m.hs[0].t.MetadataKey()); t != nil {
+			m.hs = append(m.hs, topkRedis{t})
+		}
+	}
+	return m.hs[multiRng.Intn(len(m.hs))]
+}
+func (m *topkMulti) Insert(d []byte, c uint64) error { return m.pick().Insert(d, c) }
+func (m *topkMulti) Values() ([]heapDoc, error)      { return m.pick().Values() }
+func (m *topkMulti) Export() ([]byte, error)         { return m.hs[0].Export() }
+
 func newTopK(k uint, er, acc float64, redis bool) topkHandle {
 	if redis {
 		t := gostatix.NewTopKRedis(k, er, acc)
 		if t == nil {
 			return nil
 		}
-		return topkRedis{t}
+		return &topkMulti{hs: []topkRedis{{t}}}
 	}
 	return topkMem{gostatix.NewTopK(k, er, acc)}
 }
